@@ -3,6 +3,7 @@ from .. import common as C
 from .. import gen as G
 from .. import streams as S
 from .. import dstream as D
+from .. import bitstream as BS
 
 def schedule_line(f, limit, cuts, free_after=()):
     """ops: write piece, drain, [free] ... ; final extra drain"""
